@@ -353,7 +353,7 @@ func (x *JX) tree() *Expr {
 	case "consts":
 		return cStr(x.S)
 	case "op":
-		if x.Op == "not" && len(x.Args) == 1 && x.Args[0].K == "op" {
+		if x.Op == "not" && len(x.Args) == 1 {
 			return eParen(true, x.Args[0].tree())
 		}
 		var e *Expr
@@ -373,26 +373,8 @@ func (x *JX) tree() *Expr {
 	return eAtom(x.H.callAtom(as))
 }
 
-// regions of the tree that lie inside a known finding / outside the theorem's side condition
+// regions of the tree that lie outside the theorem's side condition (wf_trule): none is left
 func (x *JX) regions(into map[string]bool) {
-	if x.K == "op" {
-		compound := x.Op == "and" || x.Op == "or"
-		nOps := 0
-		for _, a := range x.Args {
-			if a.K == "op" {
-				nOps++
-			}
-		}
-		if x.Op == "not" && len(x.Args) >= 2 && nOps > 0 {
-			into["not_with_operator_operand"] = true
-		}
-		if !compound && len(x.Args) == 1 && !(x.Op == "not" && nOps == 1) {
-			into["arity_one"] = true
-		}
-	}
-	if x.K == "constn" && x.Big != 0 {
-		into["const_not_an_integer_literal"] = true
-	}
 	for _, a := range x.Args {
 		a.regions(into)
 	}
@@ -410,9 +392,6 @@ func (r *TRule) regions() []string {
 		for _, a := range t.Args {
 			a.regions(m)
 		}
-	}
-	if strconv.Quote(r.Desc) != "\""+r.Desc+"\"" {
-		m["description_needs_escapes"] = true
 	}
 	var out []string
 	for k := range m {
@@ -531,10 +510,6 @@ func (g *jgen) cmp(d int) *JX {
 	}
 	op := pick(g.p, []string{"eq", "not", "gt", "gte", "lt", "lte"})
 	l, r := g.intTree(d), g.intTree(d-1)
-	if op == "not" && (l.K == "op" || r.K == "op") && g.p.chance(5, 6) {
-		// a two-operand "not" over operator objects lies in a known region: mostly stay outside
-		op = "eq"
-	}
 	return &JX{K: "op", Op: op, Args: []*JX{l, r}}
 }
 
@@ -545,7 +520,12 @@ func (g *jgen) boolTree(d int) *JX {
 	switch g.p.intn(6) {
 	case 0:
 		// one-operand not over an operator object: logical negation
-		return &JX{K: "op", Op: "not", Args: []*JX{g.asObject(g.boolTree(d - 1))}}
+		// (the lone operand is negated whatever its form: operator object, obj, const, call, plain)
+		x := g.boolTree(d - 1)
+		if g.p.chance(1, 4) {
+			x = pick(g.p, []*JX{{K: "plain", A: aVar(vPath("F", "B"))}, {K: "bool", B: g.p.chance(1, 2)}, {K: "constb", B: g.p.chance(1, 2)}, {K: "obj", A: aVar(vPath("F", "In", "B"))}})
+		}
+		return &JX{K: "op", Op: "not", Args: []*JX{x}}
 	case 1:
 		// comparison of two boolean sub-trees
 		return &JX{K: "op", Op: "eq", Args: []*JX{g.boolTree(d - 1), g.boolTree(d - 1)}}
@@ -702,19 +682,11 @@ func c18Oracle(s C18Scenario, o C18Obs) (viol []string, known [][2]string) {
 	rejected := o.TransErr != "" || !o.Accepted
 	if s.Expect == "reject" && !rejected {
 		msg := "a malformed JSON rule was accepted: " + s.Why + " (translated to " + strconv.Quote(o.Text) + ")"
-		if hasRegion(s.Regions, "arity_one") {
-			known = append(known, [2]string{"arity_one", msg})
-		} else {
-			viol = append(viol, msg)
-		}
+		viol = append(viol, msg)
 	}
 	if s.Expect == "accept" && rejected {
 		msg := fmt.Sprintf("a well-formed JSON rule was rejected (translator: %q builder: %q)", o.TransErr, o.BuildErr)
-		if hasRegion(s.Regions, "const_not_an_integer_literal") {
-			known = append(known, [2]string{"const_not_an_integer_literal", msg + "; text " + strconv.Quote(o.Text)})
-		} else {
-			viol = append(viol, msg)
-		}
+		viol = append(viol, msg+"; text "+strconv.Quote(o.Text))
 	}
 	if s.Typed == nil || !o.Accepted {
 		return
@@ -728,24 +700,13 @@ func c18Oracle(s C18Scenario, o C18Obs) (viol []string, known [][2]string) {
 	}
 	if o.Meta.Desc != t.Desc {
 		msg := fmt.Sprintf("stored description %q differs from the JSON description %q", o.Meta.Desc, t.Desc)
-		if hasRegion(s.Regions, "description_needs_escapes") {
-			known = append(known, [2]string{"description_needs_escapes", msg})
-		} else {
-			viol = append(viol, msg)
-		}
+		viol = append(viol, msg)
 	}
 	for i := range o.Evals {
 		// the walker answers err outside its domain (division by zero, times): then it does not decide
 		if i < len(o.Native) && o.Native[i] != "err" && o.Evals[i] != o.Native[i] {
 			msg := fmt.Sprintf("condition is %s on facts #%d, the JSON operator tree (operands grouped as nested) is %s; GRL: %s", o.Evals[i], i, o.Native[i], strings.TrimSpace(o.Text))
-			switch {
-			case hasRegion(s.Regions, "not_with_operator_operand"):
-				known = append(known, [2]string{"not_with_operator_operand", msg})
-			case hasRegion(s.Regions, "arity_one"):
-				known = append(known, [2]string{"arity_one", msg})
-			default:
-				viol = append(viol, msg)
-			}
+			viol = append(viol, msg)
 		}
 	}
 	return
@@ -774,10 +735,8 @@ func c18FromTyped(kind string, t *TRule, p *prng) C18Scenario {
 			s.Facts[0].In.S = *c
 		}
 	}
-	if len(s.Regions) == 0 || (len(s.Regions) == 1 && s.Regions[0] == "description_needs_escapes") {
-		if t.Sal >= math.MinInt32 && t.Sal <= math.MaxInt32 {
-			s.Expect = "accept"
-		}
+	if t.Sal >= math.MinInt32 && t.Sal <= math.MaxInt32 {
+		s.Expect = "accept"
 	}
 	return s
 }
@@ -841,8 +800,9 @@ func c18MalformedList(p *prng) []c18Malformed {
 		{"name is a reserved word", `{"name":"then",` + w + `,` + ok + `}`, ""},
 		{"salience out of range", `{"name":"R","salience":2147483648,` + w + `,` + ok + `}`, ""},
 	}
-	for _, op := range []string{"eq", "gt", "gte", "lt", "lte", "plus", "minus", "mul", "div", "mod", "band", "bor", "not"} {
-		ms = append(ms, c18Malformed{"binary operator " + op + " with one operand", `{"name":"R","when":{"` + op + `":[true]},` + ok + `}`, "arity_one"})
+	for _, op := range []string{"eq", "gt", "gte", "lt", "lte", "plus", "minus", "mul", "div", "mod", "band", "bor"} {
+		ms = append(ms, c18Malformed{"binary operator " + op + " with one operand", `{"name":"R","when":{"` + op + `":[true]},` + ok + `}`, ""})
+		ms = append(ms, c18Malformed{"binary operator " + op + " with one operator-object operand", `{"name":"R","when":{"` + op + `":[{"eq":[1,1]}]},` + ok + `}`, ""})
 	}
 	return ms
 }
@@ -857,6 +817,29 @@ func runC18(seed uint64, tier string, out string) error {
 	}
 	var scen []C18Scenario
 	g := &jgen{p: p.fork()}
+	// fixed regression corpus, first on every run: the witnesses of the repaired findings
+	// D12 (12086c3), D13 (2cd0fef), D14 (e1f41de) must now pass every oracle
+	{
+		one := &JX{K: "op", Op: "eq", Args: []*JX{{K: "num", Z: 1}, {K: "num", Z: 1}}}
+		done := []*JSt{{K: "call", H: &CHead{F: "Complete"}}}
+		t13 := &TRule{Name: "W13", Desc: "", Sal: 0, WhenTree: &JX{K: "op", Op: "not", Args: []*JX{one, {K: "bool", B: true}}}, Then: done}
+		scen = append(scen, c18FromTyped("regression:D13-not-with-operator-operand", t13, p.fork()))
+		t13b := &TRule{Name: "W13b", Desc: "", Sal: 0, WhenTree: &JX{K: "op", Op: "not", Args: []*JX{{K: "bool", B: false}, one, one}}, Then: done}
+		scen = append(scen, c18FromTyped("regression:D13-three-operands", t13b, p.fork()))
+		t12 := &TRule{Name: "W12", Desc: "say \"hi\"\n\\ \x01", Sal: 0, WhenTree: one, Then: done}
+		scen = append(scen, c18FromTyped("regression:D12-description", t12, p.fork()))
+		s14 := C18Scenario{Kind: "regression:D14-arity-one", JSON: `{"name":"R","when":{"eq":[true]},"then":["F.I64 = 1;"]}`, Expect: "reject", Why: "binary operator eq with one operand"}
+		var raw interface{}
+		json.Unmarshal([]byte(s14.JSON), &raw)
+		s14.raw = raw
+		scen = append(scen, s14)
+		// D13b (eb4ea8e): the lone operand of "not" is negated whatever its form
+		for i, a := range []*JX{{K: "constb", B: true}, {K: "bool", B: false}, {K: "plain", A: aVar(vPath("F", "B"))}, {K: "obj", A: aVar(vPath("F", "B"))},
+			{K: "call", H: &CHead{Recv: aVar(vName("F")), M: "IsPos"}, Args: []*JX{{K: "obj", A: aVar(vPath("F", "F64"))}}}, {K: "num", Z: 5}, one} {
+			tl := &TRule{Name: fmt.Sprintf("WL%d", i), Desc: "", Sal: 0, WhenTree: &JX{K: "op", Op: "not", Args: []*JX{a}}, Then: done}
+			scen = append(scen, c18FromTyped("regression:D13b-lone-not", tl, p.fork()))
+		}
+	}
 	for i := 0; i < n; i++ {
 		t := g.rule(i)
 		scen = append(scen, c18FromTyped("typed", t, p.fork()))
@@ -883,15 +866,6 @@ func runC18(seed uint64, tier string, out string) error {
 			WhenTree: &JX{K: "op", Op: pick(sp, []string{"eq", "lt", "gte"}), Args: []*JX{outer, gg.intLeaf()}},
 			Then:     []*JSt{{K: "set", X: vPath("F", "I64"), AsObj: sp.chance(1, 2), Rhs: outer}}}
 		scen = append(scen, c18FromTyped("nested-shape", t, sp))
-	}
-	// the witnesses of the open findings, replayed on every run
-	{
-		one := &JX{K: "op", Op: "eq", Args: []*JX{{K: "num", Z: 1}, {K: "num", Z: 1}}}
-		t := &TRule{Name: "W13", Desc: "", Sal: 0, WhenTree: &JX{K: "op", Op: "not", Args: []*JX{one, {K: "bool", B: true}}},
-			Then: []*JSt{{K: "call", H: &CHead{F: "Complete"}}}}
-		scen = append(scen, c18FromTyped("witness-D13", t, p.fork()))
-		t2 := &TRule{Name: "W12", Desc: "say \"hi\"", Sal: 0, WhenTree: one, Then: []*JSt{{K: "call", H: &CHead{F: "Complete"}}}}
-		scen = append(scen, c18FromTyped("witness-D12", t2, p.fork()))
 	}
 	// constants that are not integer literals
 	for i, big := range []float64{1e21, 1e22, 1.5, 0.1, 1e-7, 123456789012345678} {
@@ -973,7 +947,7 @@ func runC18(seed uint64, tier string, out string) error {
 		wfreg := false
 		if s.Typed != nil {
 			typed = "(Some " + s.Typed.gallina() + ")"
-			wfreg = !hasRegion(s.Regions, "not_with_operator_operand") && !hasRegion(s.Regions, "arity_one")
+			wfreg = true
 		}
 		otext := "None"
 		if o.TransErr == "" {
